@@ -227,6 +227,50 @@ def run(ctx):
                      "rejecting; result, my_count, my_tries, my_future_decrement after every operation compared with LimModel")
     diff_tie(ctx, "limiter-seq", exe, ["limseq"], "lim", lcases, describe=lambda c: "limiter_node<int,int>(threshold %d): %s" % (c[0], " ".join(
         {1: "put[", 2: "]accepted", 3: "]rejected", 4: "decrement(%d)" % c[i + 1]}.get(c[i], "?") for i in range(1, len(c) - 1, 2))), bucket=lambda c: "limiter th=%d" % c[0])
+    # join_node (queueing), op by op, against JoinModel
+    jcases = []
+    for _ in range(ctx.scale(250, 6000)):
+        N = lrng.choice([2, 2, 3])
+        c = [N]
+        val = [0] * N
+        for _ in range(lrng.randint(3, 30)):
+            r_ = lrng.random()
+            if r_ < 0.68:
+                p_ = lrng.randrange(N) if lrng.random() < 0.7 else 0
+                val[p_] += 1
+                c += [1, p_, 1000 * (p_ + 1) + val[p_]]
+            elif r_ < 0.76:
+                c += [3, 0, 0]
+            elif r_ < 0.84:
+                c += [2, 0, 0]
+            elif r_ < 0.92:
+                c += [4, 0, 0]
+            else:
+                c += [6, 0, 0]
+        jcases.append(c)
+
+    def jdesc(c):
+        names = {2: "successor accepts", 3: "successor rejects", 4: "successor pulls (try_get)", 6: "successor registers again"}
+        return "join_node<tuple of %d, queueing> with a scripted successor: %s" % (c[0], ", ".join(
+            ("port%d.put(%d)" % (c[i + 1], c[i + 2])) if c[i] == 1 else names.get(c[i], "?") for i in range(1, len(c) - 2, 3)))
+
+    def join_oracle(c, toks):
+        """i-th tuple = i-th message of every port; nothing delivered twice"""
+        if "-7" not in toks:
+            return ("join-hang-or-crash", jdesc(c) + ": " + " ".join(toks[-6:]))
+        N = c[0]
+        out = [int(x) for x in toks[toks.index("-7") + 1:]]
+        puts = [[c[i + 2] for i in range(1, len(c) - 2, 3) if c[i] == 1 and c[i + 1] == p_] for p_ in range(N)]
+        tuples = [out[k:k + N] for k in range(0, len(out), N)]
+        for k, t in enumerate(tuples):
+            want = [puts[p_][k] if k < len(puts[p_]) else None for p_ in range(N)]
+            if t != want:
+                return ("join-tuple-mismatch", "%s: tuple #%d delivered is %s, the %d-th messages of the ports are %s" % (jdesc(c), k, t, k, want))
+        return None
+    ctx.rules.append("join-seq: join_node<tuple<long,long[,long]>, queueing> with a scripted successor (accepting / rejecting, pulling with try_get, registering again), 3-30 operations, drained after each: "
+                     "result, ports_with_no_items, forwarder_busy, successor registered, tuples delivered and every port's buffer size after every operation, and all tuples, compared with JoinModel; "
+                     "oracle: the i-th tuple is the i-th message of every port")
+    diff_tie(ctx, "join-seq", exe, ["joinseq"], "join", jcases, oracle=join_oracle, describe=jdesc, bucket=lambda c: "join N=%d" % c[0])
     # real threads
     runs = []
     for r in range(ctx.scale(6, 60)):
@@ -262,6 +306,8 @@ def replay(ctx, rep):
         diff_tie(ctx, "fgbuf-seq", exe, ["seq"], "buf", [rep["case"]], oracle=seq_oracle, describe=sdescribe)
     elif rep.get("tie") == "limiter-seq":
         diff_tie(ctx, "limiter-seq", exe, ["limseq"], "lim", [rep["case"]])
+    elif rep.get("tie") == "join-seq":
+        diff_tie(ctx, "join-seq", exe, ["joinseq"], "join", [rep["case"]])
     elif rep.get("tie") == "fgbuf-prio":
         oracle_tie(ctx, "fgbuf-prio", exe, ["seq"], [rep["case"]], seq_oracle, describe=sdescribe)
     else:
